@@ -2562,6 +2562,8 @@ impl Variant for DataType {
     }
 
     fn is_subset_of(&self, other: &Self) -> bool {
+        #[cfg(feature = "verif-hooks")]
+        let _depth = crate::verif_hooks::enter("DataType::is_subset_of");
         // If self and other are from the same variant
         for_all_variant_pairs!(
             self,
